@@ -52,6 +52,118 @@ def query_all(nodes, idm, m, triples=True):
     return bad, cnt
 
 
+def query_node(nodes, idm, m, i):
+    """The attributes/helpers of ONE node (used after partially primed histories, so that querying other
+    nodes cannot repair a stale cache before it is observed)."""
+    from anytree import util
+
+    nd = nodes[i]
+    bad = []
+    for what, exp, got in (
+        ("path(%d)" % i, m.path(i), lambda: idm.seq(nd.path)),
+        ("ancestors(%d)" % i, m.ancestors(i), lambda: idm.seq(nd.ancestors)),
+        ("root(%d)" % i, m.root(i), lambda: idm(nd.root)),
+        ("depth(%d)" % i, m.depth(i), lambda: nd.depth),
+        ("siblings(%d)" % i, m.siblings(i), lambda: idm.seq(nd.siblings)),
+        ("descendants(%d)" % i, m.descendants(i), lambda: idm.seq(nd.descendants)),
+        ("leaves(%d)" % i, m.leaves(i), lambda: idm.seq(nd.leaves)),
+        ("size(%d)" % i, m.size(i), lambda: nd.size),
+        ("height(%d)" % i, m.height(i), lambda: nd.height),
+        ("is_root(%d)" % i, m.par[i] is None, lambda: nd.is_root),
+        ("is_leaf(%d)" % i, not m.ch[i], lambda: nd.is_leaf),
+        ("leftsibling(%d)" % i, m.leftsibling(i), lambda: idm(util.leftsibling(nd))),
+        ("rightsibling(%d)" % i, m.rightsibling(i), lambda: idm(util.rightsibling(nd))),
+        ("commonancestors(%d,%d)" % (i, i), m.commonancestors(i, i), lambda: idm.seq(util.commonancestors(nd, nd))),
+    ):
+        g = got()
+        if g != exp:
+            bad.append((what, exp, g))
+    return bad, 14
+
+
+def prime(nd):
+    """Ask one node for everything (fills whatever caches an implementation might keep)."""
+    nd.path, nd.ancestors, nd.root, nd.depth, nd.siblings, nd.descendants, nd.leaves, nd.size, nd.height
+    nd.is_root, nd.is_leaf
+    repr(nd)
+
+
+def run_primed(t, kind, n, witness, primed, ops, y):
+    """rebuild; query only the primed nodes; apply ops; then query node y alone and compare with the definitions
+    over the current public links."""
+    u = forest.rebuild(kind, n, witness)
+    u.arm()
+    for lbl in primed:
+        prime(u.nodes[lbl])
+    for op in ops:
+        try:
+            u.apply(op)
+        except Exception:  # noqa
+            t.c["refused_ops"] += 1
+    nodes = [u.nodes[l] for l in u.labels]
+    idm = tree.IdMap(nodes)
+    # the model is read AFTER the isolated query: reading .parent/.children of all nodes first must not matter
+    # for correct code, but it could repair a stale cache in a broken one
+    yi = u.labels.index(y)
+    raw = _raw_node(nodes, idm, yi)
+    m = tree.Model.from_state(u.state(), u.labels)
+    bad = _cmp_raw(raw, m, yi)
+    t.c["evaluations"] += 14
+    t.c["primed_histories"] += 1
+    if primed and ops:
+        t.c["nontrivial"] += 1
+    for what, exp, got in bad[:2]:
+        t.violation("C04: %s is stale/wrong after a partially queried history" % what,
+                    {"engine": "E2", "module": MOD, "part": "primed", "kind": kind, "n": n, "witness": [list(w) for w in witness],
+                     "primed": list(primed), "history": [list(o) for o in ops], "query_node": y, "query": what,
+                     "expected": exp, "observed": got})
+
+
+def _raw_node(nodes, idm, i):
+    from anytree import util
+
+    nd = nodes[i]
+    return {
+        "path": idm.seq(nd.path), "ancestors": idm.seq(nd.ancestors), "root": idm(nd.root), "depth": nd.depth,
+        "siblings": idm.seq(nd.siblings), "descendants": idm.seq(nd.descendants), "leaves": idm.seq(nd.leaves),
+        "size": nd.size, "height": nd.height, "is_root": nd.is_root, "is_leaf": nd.is_leaf,
+        "leftsibling": idm(util.leftsibling(nd)), "rightsibling": idm(util.rightsibling(nd)),
+        "commonancestors": idm.seq(util.commonancestors(nd, nd)),
+    }
+
+
+def _cmp_raw(raw, m, i):
+    exp = {
+        "path": m.path(i), "ancestors": m.ancestors(i), "root": m.root(i), "depth": m.depth(i), "siblings": m.siblings(i),
+        "descendants": m.descendants(i), "leaves": m.leaves(i), "size": m.size(i), "height": m.height(i),
+        "is_root": m.par[i] is None, "is_leaf": not m.ch[i], "leftsibling": m.leftsibling(i),
+        "rightsibling": m.rightsibling(i), "commonancestors": m.commonancestors(i, i),
+    }
+    return [("%s(%d)" % (k, i), exp[k], raw[k]) for k in exp if exp[k] != raw[k]]
+
+
+def job_primed(kind, n, states, depth2):
+    t = core.Tally()
+    labels = list(forest.LABELS[:n])
+    ops = _ops2(n)
+    for key, state, witness in states:
+        t.c["states"] += 1
+        for primed in core.powerset(labels):
+            for op1 in ops:
+                seqs = [(op1,)]
+                if depth2:
+                    seqs += [(op1, op2) for op2 in ops if op2[0] == "setp"]
+                for seq in seqs:
+                    t.c["transitions"] += 1
+                    for y in labels:
+                        core.guard(t, "C04", {"engine": "E2", "module": MOD, "part": "primed", "kind": kind, "n": n,
+                                              "witness": [list(w) for w in witness], "primed": list(primed),
+                                              "history": [list(o) for o in seq], "query_node": y},
+                                   run_primed, t, kind, n, witness, primed, seq, y)
+        t.obs((kind, key, "primed", t.c["evaluations"]))
+    return t
+
+
 # ---- E2 part -----------------------------------------------------------------------------------
 
 
@@ -155,6 +267,8 @@ def replay(c):
     t = core.Tally()
     if c["part"] == "shape":
         check_shape(t, _tup(c["shape"]), (c["kind"],), True)
+    elif c["part"] == "primed":
+        run_primed(t, c["kind"], c["n"], _tup(c["witness"]), tuple(c["primed"]), _tup(c["history"]), c["query_node"])
     else:
         run_history(t, c["kind"], c["n"], _tup(c["witness"]), _tup(c["history"]))
     return [v["why"] for v in t.violations]
@@ -184,6 +298,14 @@ def run(tier):
                       for s in core.shard(states, core.NPROC * 4)], into=t)
             bounds.append({"part": "histories", "class": kind, "N": n, "forest_states": len(states),
                            "histories": t.c["transitions"] - before, "depth": 2 if depth2 else 1})
+            if n <= 4:
+                before = t.c["primed_histories"]
+                d2 = depth2 and n == 3
+                pool.run([(MOD, "job_primed", {"kind": kind, "n": n, "states": s_, "depth2": d2})
+                          for s_ in core.shard(states, core.NPROC * 4)], into=t)
+                bounds.append({"part": "partially primed histories", "class": kind, "N": n, "forest_states": len(states),
+                               "histories": t.c["primed_histories"] - before, "depth": 2 if d2 else 1,
+                               "primed_subsets": "all %d" % (2 ** n), "isolated_query_node": "each"})
     finally:
         pool.close()
     cov = {
@@ -194,10 +316,12 @@ def run(tier):
         "distinct_nontrivial": t.c["nontrivial"],
         "rule": "(a) every ordered tree up to %d nodes x 5 classes x 2 build orders: every attribute of every node, "
                 "commonancestors of all pairs (triples up to 5 nodes); (b) every reachable forest of 3-4(5) labelled "
-                "nodes: query everything, mutate, query, mutate, query on the same live objects, expected values "
+                "nodes: query everything, mutate, query, mutate, query on the same live objects, and - so that queries cannot "
+                "repair stale caches - every subset of nodes queried first, then 1-2 mutations, then ONE node queried in "
+                "isolation; expected values "
                 "recomputed from the definitions over the current public parent/children links; evaluations = single "
                 "values compared; non-trivial = multi-node tree / a mutation that changed the forest" % nmax,
         "bounds": bounds,
     }
-    return {"tally": t, "coverage": cov, "guards": ("nontrivial", "query_rounds", "refused_ops"),
+    return {"tally": t, "coverage": cov, "guards": ("nontrivial", "query_rounds", "refused_ops", "primed_histories"),
             "assumptions": ["bounded tree sizes and history depth 2 after any reachable forest"]}
